@@ -158,6 +158,24 @@ def main():
                 ok = all(tuple(r) in rows_by_class[int(c)] for r, c in zip(Xs.tolist(), ysm.tolist()))
             if not ok:
                 h.fail('downsample_dataset.n_rows_of_each_class_from_that_class', dict(base, n=nd), f'{len(Xs)} rows')
+    # down-sampling with three and four classes: n rows of each class, every returned row drawn from the class of its label
+    for case in range(20 if quick else 200):
+        ncls = int(rng.choice([3, 4]))
+        ns = int(rng.integers(12, 60))
+        Xk = rng.integers(0, 50, (ns, 3)).astype(np.int32)
+        yk = rng.integers(0, ncls, ns)
+        Xk[:, 0] = yk * 1000 + np.arange(ns)          # every row identifies its own class
+        counts = np.bincount(yk, minlength=ncls)
+        if counts.min() < 1:
+            continue
+        nd = int(rng.integers(1, counts.min() + 1))
+        Xs, ysm = CC().downsample_dataset(Xk, yk, n=nd, seed=int(rng.integers(0, 1000)), reshuffle=bool(rng.integers(0, 2)))
+        h.record(('down-multi', case), True)
+        ok = len(Xs) == ncls * nd and all(int(np.sum(np.asarray(ysm) == c)) == nd for c in range(ncls))
+        ok = ok and all(int(r[0]) // 1000 == int(c) for r, c in zip(np.asarray(Xs).tolist(), np.asarray(ysm).tolist()))
+        if not ok:
+            h.fail('downsample_dataset.n_rows_of_each_class_from_that_class', {'classes': ncls, 'n': nd, 'class_sizes': counts.tolist()},
+                   f'{len(Xs)} rows; labels {np.asarray(ysm).tolist()[:12]}; source classes {[int(r[0]) // 1000 for r in np.asarray(Xs).tolist()][:12]}')
     h.bounded_note('correlation / duplicates / combinations / quantile labels / noise / down-sampling of the real generator vs '
                    'independent recomputation', f'{n_cases} random data sets, r in (-1,1) incl. negatives', h.evaluations)
     return h.finish()
